@@ -28,6 +28,10 @@ class NpArr:
     def vc_getattr(self, eng, attr, node=None):
         if attr == 'sum':
             return BoundMethod('sum', lambda e, a, k: e.call(e.builtins()['sum'], [self.items], {}))
+        if attr == 'astype':
+            return BoundMethod('astype', lambda e, a, k: _arr_astype(self, e, a, k))
+        if attr == 'shape':
+            return (len(self.items),)
         raise Unsupported('ndarray.%s' % attr)
 
     def vc_truth(self):
@@ -219,6 +223,47 @@ def _arr_eq(self, eng, other):
 
 
 NpArr.vc_eq = _arr_eq
+
+
+def _arr_elementwise(self, other, fn):
+    if isinstance(other, NpArr):
+        if len(other.items) != len(self.items):
+            raise PyRaise('ValueError', 'operands could not be broadcast together')
+        return NpArr([fn(a, b) for a, b in zip(self.items, other.items)])
+    if isinstance(other, (NpArr2, NpCol)):
+        raise Unsupported('1-D / 2-D broadcasting')
+    return NpArr([fn(a, other) for a in self.items])
+
+
+def _arr_binop(self, eng, op, other, swapped, node=None):
+    return _arr_elementwise(self, other, (lambda a, b: eng.binop(op, b, a, node)) if swapped else (lambda a, b: eng.binop(op, a, b, node)))
+
+
+_FLIP = {ast.Lt: ast.Gt, ast.Gt: ast.Lt, ast.LtE: ast.GtE, ast.GtE: ast.LtE}
+
+
+def _arr_order(self, eng, op, other, swapped, node=None):
+    if swapped:
+        op = _FLIP[type(op)]()
+    return _arr_elementwise(self, other, lambda a, b: _b(eng.order(op, a, b, node)))
+
+
+NpArr.vc_binop = _arr_binop
+NpArr.vc_order = _arr_order
+
+
+def _arr_astype(self, eng, args, kwargs):
+    t = args[0] if args else kwargs.get('dtype')
+    name = t if isinstance(t, str) else getattr(t, '__name__', str(t))
+    if name in ('int', 'int64', 'int32', 'uint64', 'i', 'i8'):
+        # values that are already integers stay as they are (exact); anything else is outside the model
+        for x in self.items:
+            if not (isinstance(x, int) or (is_sym(x) and x.t == INT)):
+                raise Unsupported('astype(int) of non-integer array elements')
+        return NpArr(list(self.items))
+    if name in ('float', 'float64'):
+        return NpArr(list(self.items))
+    raise Unsupported('ndarray.astype(%s)' % name)
 
 
 def np_zeros(eng, args, kwargs, node):
